@@ -4,6 +4,7 @@ import CfbVerif.Drv.Time
 import CfbVerif.Drv.Api
 import CfbVerif.Drv.Raw
 import CfbVerif.Drv.Lock
+import CfbVerif.Drv.Phys
 
 def main (args : List String) : IO UInt32 := do
   match args with
@@ -14,4 +15,5 @@ def main (args : List String) : IO UInt32 := do
   | ["api"] => CfbVerif.Drv.Api.main; return 0
   | ["raw"] => CfbVerif.Drv.Raw.main; return 0
   | ["locks"] => CfbVerif.Drv.Lock.main; return 0
+  | ["phys"] => CfbVerif.Drv.Phys.main; return 0
   | _ => IO.eprintln "usage: driver <handle|...>"; return 2
